@@ -1031,9 +1031,32 @@ class Variable(CanBehaveLikeAVariable[T]):
     def _generate_combinations_for_child_vars_values_(
         self, sources: Optional[Dict[int, HashedValue]] = None
     ):
-        yield from generate_combinations(
-            {k: var._evaluate__(sources) for k, var in self._child_vars_.items()}
+        yield from self._generate_consistent_child_vars_values_(
+            list(self._child_vars_.items()), sources
         )
+
+    def _generate_consistent_child_vars_values_(
+        self,
+        child_vars: List[Tuple[str, SymbolicExpression]],
+        sources: Optional[Dict[int, HashedValue]],
+    ) -> Iterable[Dict[str, OperationResult]]:
+        """
+        Evaluate the child variables one after the other, each with the bindings produced by the previous ones, such
+        that a variable that occurs in several arguments has the same value in all of them.
+
+        :param child_vars: The (name, variable) pairs that are still to be evaluated.
+        :param sources: The current bindings.
+        :return: An Iterable of dictionaries mapping each argument name to its result.
+        """
+        if not child_vars:
+            yield {}
+            return
+        (name, var), remaining = child_vars[0], child_vars[1:]
+        for result in var._evaluate__(sources):
+            for rest in self._generate_consistent_child_vars_values_(
+                remaining, result.bindings
+            ):
+                yield {name: result, **rest}
 
     def _process_output_and_update_values_(
         self, instance: Any, kwargs: Dict[str, OperationResult]
